@@ -172,7 +172,9 @@ type SpecEnv struct {
 	pkg   *types.Package
 	inOld bool
 	// extra resolves engine-provided names (ghost state)
-	extra func(name string, args []TV) (TV, bool)
+	extra  func(name string, args []TV) (TV, bool)
+	lin    *linPoint
+	assume bool
 }
 
 var impliesRe = regexp.MustCompile(`==>`)
@@ -722,11 +724,14 @@ func (e *SpecEnv) call(n *ast.CallExpr) TV {
 	case *ast.Ident:
 		fname = f.Name
 	case *ast.SelectorExpr:
-		if id, ok := f.X.(*ast.Ident); ok {
-			fname = id.Name + "." + f.Sel.Name
-		}
+		fname = dottedName(f)
 	}
 	switch fname {
+	case "linearizes":
+		if e.st.ghost == nil || e.st.ghost.db == nil {
+			return e.fail("linearizes() without database ghost")
+		}
+		return e.st.ghost.db.evalLinearizes(e, e.st, n.Args[0])
 	case "old":
 		save := e.inOld
 		e.inOld = true
@@ -855,4 +860,19 @@ func (x *Exec) specEnvFor(st *State, fn *ssa.Function, params []Value, results [
 		}
 	}
 	return env
+}
+
+// dottedName flattens a.b.c selector chains (spec function names contain dots).
+func dottedName(e ast.Expr) string {
+	switch n := e.(type) {
+	case *ast.Ident:
+		return n.Name
+	case *ast.SelectorExpr:
+		base := dottedName(n.X)
+		if base == "" {
+			return ""
+		}
+		return base + "." + n.Sel.Name
+	}
+	return ""
 }
